@@ -102,6 +102,9 @@ META["rule"] += (
 META["rule"] += (
     " " + "Added after the fifth round: after a twin-surrogate walk, twins(threshold, min_dist) is asked again both positionally (the method's own cache key) and as the caller wrote it; a twin listed twice is a finding of its own.")
 
+META["rule"] += (
+    " " + 'Added after the sixth round: family of recurrence plots by local recurrence rate / adaptive neighbourhood size (twins = identical rows); in half of the repeated twins queries the caller has refilled the array it handed to the embedding setter.')
+
 # --------------------------------------------------------------------------
 # data
 # --------------------------------------------------------------------------
@@ -469,6 +472,15 @@ def sur_op(ctx, S, s, m, cls, op, seed, rec, key=None):
             # reuse the embedding that is on the object (memo hit when the
             # arguments repeat, new entry otherwise)
             meth = "twins"
+            given = getattr(m, "emb_given", None)
+            if given is not None and r.random() < 0.5 and \
+                    isinstance(given, np.ndarray) and given.flags.writeable:
+                # the caller goes on using the array it handed to the
+                # setter (fills it with other numbers): the object's
+                # embedding is the object's
+                given[...] = given[..., ::-1].copy() * 0.5 + 1.0
+                if rec:
+                    ctx.count("embedding_array_reused_by_caller")
             if m.twargs is not None and r.random() < 0.5:
                 thr, md, mdv, kw = m.twargs
             else:
@@ -494,6 +506,7 @@ def sur_op(ctx, S, s, m, cls, op, seed, rec, key=None):
                           {"dim": dim, "delay": delay})]
                 s.embedding = le
                 m.emb = emb
+                m.emb_given = le        # (the caller's array)
         refsets, pairs, far_nt = _ref_twins(ctx, emb, thr, mdv, False, rec)
         if refsets is None:
             if rec:
@@ -640,6 +653,62 @@ def sur_case(ctx, S, cid, r, cls, N, n, ops):
             return          # object/model no longer in a defined state
     ctx.sample({"class": cls, "N": N, "n": n,
                 "history": [o[0] for o in ops]})
+
+
+# --------------------------------------------------------------------------
+# RecurrencePlot with a recurrence matrix that is not symmetric
+# --------------------------------------------------------------------------
+def rp_asymmetric_case(ctx, RP, cid, r, n):
+    """Fixed local recurrence rate / adaptive neighbourhood size: row j of
+    the matrix is the neighbourhood of state j (its own threshold), and the
+    matrix is in general not symmetric.  Twins = sufficiently separated
+    states whose neighbourhoods (rows) are identical - the comparison the
+    library's kernel makes; the matrix itself is the library's (C07 judges
+    it).  The walk of the surrogates is judged against the same twin sets."""
+    n = min(n, 60)
+    ts = r.normal(size=n)
+    if r.random() < 0.4:
+        ts = np.round(ts * 2) / 2          # ties: many identical rows
+    if r.random() < 0.5:
+        kw = {"local_recurrence_rate": float(r.choice([0.2, 0.3, 0.5]))}
+    else:
+        kw = {"adaptive_neighborhood_size": int(r.integers(2, max(3, n // 3)))}
+    ok, rp = ctx.call(RP, ts.copy(), silence_level=3, **kw)
+    if not ok:
+        ctx.count("rp_asymmetric_ctor_raises")
+        return
+    R = np.asarray(rp.recurrence_matrix())
+    md = int(r.choice([0, 1, 2, 7]))
+    rows = {}
+    for j in range(n):
+        rows.setdefault(R[j].tobytes(), []).append(j)
+    tw = [set() for _ in range(n)]
+    for g in rows.values():
+        for j in g:
+            # (a state whose only neighbour is itself has no twins: the
+            #  library's documented pre-selection)
+            if R[j].sum() != 1:
+                tw[j] = {k for k in g if abs(j - k) > md}
+    ok, lt = ctx.call(rp.twins, min_dist=md)
+    ctx.evals()
+    ctx.count("rp_asymmetric_twins_compared")
+    sym = bool(np.array_equal(R, R.T))
+    if not sym:
+        ctx.count("rp_asymmetric_matrices")
+    pairs = sum(len(x) for x in tw) // 2
+    if pairs and not sym:
+        ctx.nontrivial(("rp-asym", ts.tobytes().hex()[:400], str(kw), md))
+    det = {"time_series": ts, "kw": kw, "min_dist": md, "R": R,
+           "symmetric": sym}
+    if not ok:
+        ctx.violation(f"RecurrencePlot.twins:raises:{type(lt).__name__}"
+                      ":asymmetric-matrix", {**det, "exc": repr(lt)[:300]},
+                      cid)
+        return
+    for what, d2 in _twins_problem([lt], [tw], ""):
+        ctx.violation(f"RecurrencePlot.twins:{what}" +
+                      ("" if sym else ":asymmetric-matrix"),
+                      {**det, **d2}, cid)
 
 
 # --------------------------------------------------------------------------
@@ -863,6 +932,12 @@ def run(ctx):
             n = int(r.integers(61, 201))
         else:
             n = int(r.integers(201, nmax + 1))
+        if k % 7 == 3 and k % 2:
+            cid = f"rpasym:{k}"
+            if ctx.want(cid):
+                with ctx.guard(120):
+                    rp_asymmetric_case(ctx, RP, cid, r, n)
+            continue
         if k % 7 == 0:
             cid = f"rp:{k}"
             if ctx.want(cid):
